@@ -209,7 +209,44 @@ class TheoryOracle(walkers.DagWalker):
         theory_out = args[0]
         for t in args[1:]:
             theory_out = theory_out.combine(t)
+        if (formula.is_minus() or formula.is_theory_relation()) and \
+           not self._is_difference(formula):
+            # (x - y) - z <= 3 and x - y <= z are not in DL anymore
+            theory_out = theory_out.set_difference_logic(False)
         return theory_out
+
+    def _is_difference(self, formula: FNode) -> bool:
+        """Whether a subtraction / an arithmetic relation fits a difference
+        constraint: at most two symbols, with opposite signs, besides
+        ground terms. Operands of other shapes are left to their own rule.
+        """
+        def signs(term, sign):
+            if term.is_symbol():
+                return [sign]
+            if not term.get_free_variables():
+                return []
+            return None
+        res: List[int] = []
+        operands = [(a, 1) for a in formula.args()]
+        if formula.is_minus():
+            operands = [(formula.arg(0), 1), (formula.arg(1), -1)]
+        elif len(operands) == 2:
+            left, right = formula.args()
+            operands = []
+            for side, sign in ((left, 1), (right, -1)):
+                if side.is_minus():
+                    operands += [(side.arg(0), sign), (side.arg(1), -sign)]
+                else:
+                    operands.append((side, sign))
+        for term, sign in operands:
+            s = signs(term, sign)
+            if s is None:
+                # A subtraction inside a subtraction is not a difference
+                if term.is_minus():
+                    return False
+                continue
+            res += s
+        return len(res) < 2 or (len(res) == 2 and sum(res) == 0)
 
     @walkers.handles(op.QUANTIFIERS)
     def walk_quantifier(self, formula: FNode, args: List[Theory], **kwargs) -> Theory:
